@@ -310,7 +310,9 @@ func (ctx *parseContext) readNodes() ([]Node, error) {
 		}
 
 		if node.Macro {
-			if ctx.nesting != 0 {
+			// shouldStop means the declaration was followed by the } of the
+			// enclosing block (already accounted for in ctx.nesting above).
+			if ctx.nesting != 0 || shouldStop {
 				return res, ctx.Err("macro declarations are only allowed at top-level")
 			}
 
@@ -325,7 +327,7 @@ func (ctx *parseContext) readNodes() ([]Node, error) {
 			continue
 		}
 		if node.Snippet {
-			if ctx.nesting != 0 {
+			if ctx.nesting != 0 || shouldStop {
 				return res, ctx.Err("snippet declarations are only allowed at top-level")
 			}
 			if len(node.Args) != 0 {
